@@ -95,6 +95,7 @@ type frame struct {
 	panicking bool
 	panic     interface{}
 	curInstr  ssa.Instruction
+	skipPhis  bool
 }
 
 type Interp struct {
@@ -117,6 +118,8 @@ type Interp struct {
 	nativeCache map[string]any
 	decodeCache map[decodeKey]decoded
 	concretizeInts bool
+	noIfConv bool
+	ifconvs int
 	trace    bool
 	depth    int
 }
@@ -542,6 +545,10 @@ func (in *Interp) visit(fr *frame, instr ssa.Instruction) continuation {
 		c := fr.get(instr.Cond).(SBool)
 		var taken bool
 		if c.T != nil {
+			if _, known := in.ex.decided[c.T]; !known && !in.noIfConv && in.tryIfConvert(fr, instr, c.T) {
+				in.ifconvs++
+				return kJump
+			}
 			taken = in.ex.Branch(c.T)
 		} else {
 			taken = c.V
@@ -716,7 +723,10 @@ func (in *Interp) index(fr *frame, iv Value, n int) int {
 	if i.T != nil {
 		// in range?
 		w := uint(i.W)
-		inRange := in.tb.Bin(OpBvUlt, i.T, in.tb.Const(bvSort(w), uint64(n)))
+		inRange := in.tb.Bool(true)
+		if uint64(n) <= mask(w) {
+			inRange = in.tb.Bin(OpBvUlt, i.T, in.tb.Const(bvSort(w), uint64(n)))
+		}
 		if !in.ex.Branch(inRange) {
 			in.throw(fr, fmt.Sprintf("index out of range [symbolic] with length %d", n))
 		}
